@@ -36,6 +36,7 @@ type c12Flavor struct {
 	Backend  string `json:"backend"`                  // udp | tcp
 	Branch   string `json:"branch,omitempty"`         // "" pairwise unrelated | prefix: every branch is a proper prefix of the next one
 	DT       int    `json:"dialog_timeout,omitempty"` // dialogTimeout of the service in seconds (0 = not configured)
+	RPortVal string `json:"rport_value,omitempty"`    // the sender wrote a VALUE into its rport parameter (;rport=5060)
 	Answer   string `json:"answer,omitempty"`         // how the backend answers: "" from its configured address with the Via lines as received | foreign: from another port of its host | joined: all Via values in one line | foreign+joined
 }
 
@@ -49,6 +50,9 @@ func (f c12Flavor) String() string {
 	}
 	if f.Answer != "" {
 		s += ",answer=" + f.Answer
+	}
+	if f.RPortVal != "" {
+		s += ",rport-value=" + f.RPortVal
 	}
 	return s
 }
@@ -142,6 +146,9 @@ func c12Exec(fl c12Flavor, nconn int, hist []c12Ev) (string, string, string) {
 			}
 			if fl.RPort {
 				via += ";rport"
+				if fl.RPortVal != "" {
+					via += "=" + fl.RPortVal
+				}
 			}
 			m := MsgSpec{Method: "INVITE", RURI: "sip:bob@svc.example.com", Vias: []string{via}, From: fmt.Sprintf("<sip:u%d@ua.example.net>;tag=f%d%d", ev.K, ev.K, ev.T), To: "<sip:bob@svc.example.com>",
 				CallID: fmt.Sprintf("c12-%d-%d", ev.K, ev.T), CSeq: "1 INVITE"}.Build()
@@ -337,7 +344,17 @@ func c12Run(c *Ctx) {
 		for _, sb := range []string{"same", "different", "table-name", "unknown-name", "true-port", "dns-name", "backend-address"} {
 			for _, rp := range []bool{true, false} {
 				for _, be := range []string{"udp", "tcp"} {
-					flavors = append(flavors, c12Flavor{rc, sb, rp, be, "", 0, ""})
+					flavors = append(flavors, c12Flavor{rc, sb, rp, be, "", 0, "", ""})
+				}
+			}
+		}
+	}
+	// the sender pre-filled its rport parameter with a value (its own idea of its port, or a foreign one)
+	for _, rc := range []string{"on", "off"} {
+		for _, sb := range []string{"same", "different"} {
+			for _, rv := range []string{"5060", "6001", "40000"} {
+				for _, be := range []string{"udp", "tcp"} {
+					flavors = append(flavors, c12Flavor{rc, sb, true, be, "", 0, rv, ""})
 				}
 			}
 		}
@@ -346,7 +363,7 @@ func c12Run(c *Ctx) {
 		for _, sb := range []string{"same", "table-name"} {
 			for _, rp := range []bool{true, false} {
 				for _, be := range []string{"udp", "tcp"} {
-					flavors = append(flavors, c12Flavor{rc, sb, rp, be, "prefix", 0, ""})
+					flavors = append(flavors, c12Flavor{rc, sb, rp, be, "prefix", 0, "", ""})
 				}
 			}
 		}
